@@ -83,6 +83,8 @@ func (f *Future[T]) PipeTo(forwarders vivid.ActorRefs) error {
 	f.mu.Lock()
 	if f.closed.Load() {
 		f.mu.Unlock()
+		// closed 在结果赋值之前就被置位；等待 done（在赋值之后关闭）再读取结果，否则会把 (nil, nil) 转发出去
+		<-f.done
 		f.tellForwarders(forwarders, f.message, f.err)
 		return nil
 	}
